@@ -149,6 +149,7 @@ class Detrender(_SeriesToSeriesTransformer):
         -------
         self : an instance of self
         """
+        self.check_is_fitted()
         z = check_series(Z, enforce_univariate=True, allow_empty=True)
         self.forecaster_.update(z, X, update_params=update_params)
         return self
